@@ -269,24 +269,27 @@ class AppCfgMgr:
 
         for container in configured:
             appname = appcfg.app_name(container)
-            if os.path.exists(os.path.join(self.tm_env.running_dir, appname)):
+            # The same instance can have several containers (it was evicted
+            # and placed here again): only the one the cache entry maps to is
+            # "in cache", only the one the running link points to is running.
+            is_cached = cached.get(appname) == container
+            running_link = os.path.join(self.tm_env.running_dir, appname)
+            running_dir = self._resolve_running_link(running_link)
+            if os.path.basename(running_dir) == container:
                 # App already running.. check if in cache.
                 # No need to check if needs cleanup as that is handled
-                if appname not in cached or cached[appname] != container:
+                if not is_cached:
                     self._terminate(appname)
                 else:
                     _LOGGER.info('Ignoring %s as it is running', appname)
 
-                cached.pop(appname, None)
-
             elif self._in_cleanup(appname, container):
                 # Already in the process of being cleaned up
                 _LOGGER.info('Ignoring %s as it is in cleanup', appname)
-                cached.pop(appname, None)
 
             else:
                 needs_cleanup = True
-                if appname in cached and cached[appname] == container:
+                if is_cached:
                     data_dir = os.path.join(self.tm_env.apps_dir, container,
                                             'data')
                     for cleanup_file in ['exitinfo', 'aborted', 'oom']:
@@ -299,14 +302,22 @@ class AppCfgMgr:
                             needs_cleanup = False
                             _LOGGER.debug('Added existing app %r', appname)
 
-                    cached.pop(appname, None)
-
                 if needs_cleanup:
+                    cleanup_link = os.path.join(self.tm_env.cleanup_dir,
+                                                appname)
+                    if os.path.lexists(cleanup_link):
+                        # Taken by another container of the same instance.
+                        cleanup_link = os.path.join(self.tm_env.cleanup_dir,
+                                                    container)
                     fs.symlink_safe(
-                        os.path.join(self.tm_env.cleanup_dir, appname),
+                        cleanup_link,
                         os.path.join(self.tm_env.apps_dir, container)
                     )
                     _LOGGER.debug('Removed %r', appname)
+
+            if is_cached:
+                # Handled: do not configure it again below.
+                cached.pop(appname)
 
         for appname in six.iterkeys(cached):
             if self._configure(appname):
@@ -413,9 +424,13 @@ class AppCfgMgr:
         The cleanup link is named after the container by `_terminate` and
         after the instance by `_synchronize` and by the container monitor.
         """
-        return any(
-            os.path.exists(os.path.join(self.tm_env.cleanup_dir, name))
-            for name in (instance_name, container_name)
+        by_instance = os.path.join(self.tm_env.cleanup_dir, instance_name)
+        by_container = os.path.join(self.tm_env.cleanup_dir, container_name)
+        return (
+            os.path.lexists(by_container) or
+            os.path.basename(
+                self._resolve_running_link(by_instance)
+            ) == container_name
         )
 
     def _refresh_supervisor(self):
